@@ -9,6 +9,7 @@ CONSTANTS
   InputOps = {"set_input"}
   Entries = {"run", "call", "evaluate"}
   TracerStyles = {"none"}
+  Threadeds = {FALSE}
   Flags = {}
 INVARIANT Restored
 INVARIANT Contained
